@@ -866,10 +866,11 @@ def _const(v):
     return Val(lambda v=v: v)
 
 
-_I32 = [0, 1, -1, 2**31 - 1, -(2**31)]
-_I64 = [0, 1, -1, 2**63 - 1, -(2**63), 2**53 + 1]
-_U32 = [0, 1, 2**32 - 1]
-_U64 = [0, 1, 2**64 - 1, 2**63]
+# besides the range ends: the varint / zig-zag size boundaries (2**(7k) and -2**(7k-1))
+_I32 = [0, 1, -1, 2**31 - 1, -(2**31), 63, 64, -64, -65, 127, 128, 8191, -8192, -8193, 2**27, -(2**27)]
+_I64 = [0, 1, -1, 2**63 - 1, -(2**63), 2**53 + 1, -64, 128, -8192, 2**34, -(2**34), -(2**62)]
+_U32 = [0, 1, 2**32 - 1, 127, 128, 16383, 16384, 2**28]
+_U64 = [0, 1, 2**64 - 1, 2**63, 128, 2**35, 2**56]
 _F32MAX = 3.4028234663852886e38
 _FLOAT = [0.0, -0.0, 1.5, float("inf"), float("-inf"), float("nan"), _F32MAX]
 _DOUBLE = _FLOAT + [1e308, 5e-324]
@@ -891,6 +892,8 @@ _TS = [
     datetime(9999, 12, 31, 23, 59, 59, 999999, tzinfo=UTC),
     datetime(2020, 2, 29, 12, 34, 56, 789000, tzinfo=_tz(5, 30)),
     datetime(1969, 12, 31, 19, 0, 0, tzinfo=_tz(-5)),  # == epoch instant
+    datetime(1970, 1, 1, 0, 0, 0, tzinfo=_tz(5, 30)),  # local wall clock reads as the epoch, the instant is not
+    datetime(1970, 1, 1, 0, 0, 0, tzinfo=_tz(-8)),
     datetime(1960, 6, 15, 1, 2, 3, 250000, tzinfo=_tz(-8)),
     datetime(2038, 1, 19, 3, 14, 8, tzinfo=UTC),
     datetime(2001, 9, 9, 1, 46, 40, 123000, tzinfo=UTC),
@@ -988,11 +991,11 @@ def _key_pool(kind):
     if kind == "bool":
         return [False, True]
     if kind in ("int32", "sint32", "sfixed32"):
-        return _I32
+        return _I32[:7]
     if kind in ("int64", "sint64", "sfixed64"):
         return _I64[:5]
     if kind in ("uint32", "fixed32"):
-        return _U32
+        return _U32[:5]
     return _U64[:3]
 
 
